@@ -24,7 +24,8 @@ Section O15.
   Definition excl_unchanged (i : sinput) (before after : dir) : bool :=
     forallb (fun e =>
                negb (o_exclude (i_opts i) (last_name (fst e)))
-               || str_eqb (last_name (fst e)) FN_SP || str_eqb (last_name (fst e)) FN_DOC   (* signac's own files *)
+               (* a job's OWN state point and document (workspace path [id; name]) make up the job *)
+               || (Nat.eqb (length (fst e)) 2 && (str_eqb (last_name (fst e)) FN_SP || str_eqb (last_name (fst e)) FN_DOC))
                || match lookup_path (fst e) (Dir before), lookup_path (fst e) (Dir after) with
                   | Some (File c _), Some (File c' _) => content_eqb frepr c c'
                   | Some (File _ _), _ | _, Some (File _ _) => false
